@@ -42,12 +42,23 @@
    master-like (under a .multiple name it holds the template copy plus the kept instances of the further
    master occurrences), so this is a separate induction; wf_master is NOT needed (masters with further
    occurrences of a .multiple entry are covered: C07_defaults_first_example).
-   NOT proved here (decided by the correspondence stream + oracle only): the defaults as re-parsed TEXT
-   in front of other sources (the text form above covers a single re-parsed source). *)
+   "The defaults as re-parsed TEXT in front of other sources" (Proofs/FetchDefaultsText.v,
+   C07_defaults_text_first): with d = M.fetch(), d' = parse(d.as_str()), the runs M.fetch(sources=[d'] + S) and
+   M.fetch(sources=S) agree outcome for outcome: the same error (kind, word and line), or results equal up to the
+   line numbers of value words with identical printed forms.  Equality of the results on the nose fails (where S
+   leaves a default the first run hands on the word of d', on its line of the printed text:
+   C07_defaults_text_example).  Hypotheses: those of C07_refetch_text (canon blind to word lines, D07, nohids,
+   the shown part of d in dtree_ok); the last one is discharged for parsed masters
+   (C07_defaults_text_first_parsed; the sources S need not be parser outputs).  Ingredients: the object form
+   without the hidden templates of d (C07_defaults_pruned_first: M.fetch([prune d] + S) = M.fetch(S)), and
+   C07_fetch_lines_prefix: a first source that is fetched ALONE without error may change its word lines in front
+   of any further sources without changing an error of the combined run.
+   Nothing of this property is left to the stream alone. *)
 From Coq Require Import List Ascii String Bool Arith ZArith.
 From Phil Require Import Base Tree Vars Choice Fetch FetchBasics FetchShape FetchDisabled FetchExamples
   FetchIdemLists FetchIdemBase FetchIdem FetchIdemCopy FetchIdemNoMult FetchIdemChoice FetchIdemExamples EntryFetch EntryIdem
-  ChoiceProofs ChoiceTop Parser Show ShowProofs TreeRoundtrip ParserShape FetchReparse FetchDomain FetchDefaultsFirst.
+  ChoiceProofs ChoiceTop Parser Show ShowProofs TreeRoundtrip ParserShape FetchReparse FetchDomain FetchDefaultsFirst
+  FetchDefaultsText.
 Import ListNotations.
 
 (* W = M.fetch(S): fetching W again, as an object, gives W *)
@@ -305,3 +316,101 @@ Example C07_defaults_first_example :
   fetch ex_env ex_canon false dfx_master [dfx_defaults; dfx_src] = Ok dfx_result /\
   List.length dfx_result = 7 /\ dfx_result <> dfx_defaults.
 Proof. exact defaults_first_example. Qed.
+
+(* ---------------------------------------------------------------- the defaults as re-parsed TEXT as first source *)
+(* d = M.fetch() printed at attributes level 0 and parsed again (d') as an extra first source: the two runs
+   agree outcome for outcome ([outcome_up_to_lines]: the same error - kind, word, line - or results equal up to
+   the line numbers of value words, printing identically at every prefix, level and width) *)
+Theorem C07_defaults_text_first : forall env canon o m d srcs width text d',
+  (forall k c c', optwe c c' -> canon k c = canon k c') ->
+  D07 env canon m -> nohids m = true -> srcs_have_dollar srcs = false ->
+  fetch env canon false m [] = Ok d ->
+  forallb (dtree_ok []) (shown d) = true ->
+  as_str d [] None 0 width = Ok text -> parse o text = Ok d' ->
+  match fetch env canon false m (d' :: srcs), fetch env canon false m srcs with
+  | Ok w', Ok w => map we w' = map we w /\ forall p e lv wd, as_str w' p e lv wd = as_str w p e lv wd
+  | UErr k t l, UErr k' t' l' => k = k' /\ t = t' /\ l = l'
+  | Crash c, Crash c' => c = c'
+  | _, _ => False
+  end.
+Proof. exact defaults_text_outcome. Qed.
+Print Assumptions C07_defaults_text_first.
+
+(* masters without .multiple: for every canon *)
+Theorem C07_defaults_text_first_nomultiple : forall env canon o m d srcs width text d',
+  D07s m -> nohids m = true -> srcs_have_dollar srcs = false ->
+  fetch env canon false m [] = Ok d ->
+  forallb (dtree_ok []) (shown d) = true ->
+  as_str d [] None 0 width = Ok text -> parse o text = Ok d' ->
+  outcome_up_to_lines (fetch env canon false m (d' :: srcs)) (fetch env canon false m srcs).
+Proof. exact defaults_text_outcome_nomultiple. Qed.
+Print Assumptions C07_defaults_text_first_nomultiple.
+
+(* parsed masters: printing the defaults and parsing the text succeed; the sources are arbitrary "$"-free trees *)
+Theorem C07_defaults_text_first_parsed : forall env canon om sm m srcs o' d width,
+  (forall k c c', optwe c c' -> canon k c = canon k c') ->
+  parse om sm = Ok m -> no_deprecated_or_include m = true ->
+  D07 env canon m -> srcs_have_dollar srcs = false ->
+  forallb merged_plain m = true -> forallb choice_alts_ok m = true ->
+  fetch env canon false m [] = Ok d ->
+  exists text d', as_str d [] None 0 width = Ok text /\ parse o' text = Ok d' /\
+    outcome_up_to_lines (fetch env canon false m (d' :: srcs)) (fetch env canon false m srcs).
+Proof. exact defaults_text_outcome_parsed. Qed.
+Print Assumptions C07_defaults_text_first_parsed.
+
+(* the object form without the hidden templates of d (what the text shows): outcome for outcome, on the nose *)
+Theorem C07_defaults_pruned_first : forall env canon m d srcs,
+  D07 env canon m -> nohids m = true -> srcs_have_dollar srcs = false ->
+  fetch env canon false m [] = Ok d ->
+  fetch env canon false m (prune d :: srcs) = fetch env canon false m srcs.
+Proof. exact defaults_pruned_first. Qed.
+Print Assumptions C07_defaults_pruned_first.
+
+(* a first source that is fetched alone without error: its word lines do not matter in front of any further
+   sources - the same error, or results equal up to word lines (strengthens C07's use of fetch_lines, which
+   relates successful runs only: "Not a possible choice" carries the line of the offending source word) *)
+Theorem C07_fetch_lines_prefix : forall env canon,
+  (forall k c c', optwe c c' -> canon k c = canon k c') ->
+  forall m a a' srcs w0,
+  existsb obj_has_dollar a = false -> existsb obj_has_dollar a' = false -> leql a a' ->
+  fetch env canon false m [a] = Ok w0 ->
+  match fetch env canon false m (a :: srcs), fetch env canon false m (a' :: srcs) with
+  | Ok w, Ok w' => map we w = map we w'
+  | UErr k t l, UErr k' t' l' => k = k' /\ t = t' /\ l = l'
+  | Crash c, Crash c' => c = c'
+  | _, _ => False
+  end.
+Proof. exact fetch_lines_prefix. Qed.
+Print Assumptions C07_fetch_lines_prefix.
+
+(* non-vacuity: a parsed master with a plain scope, a .multiple definition with TWO master occurrences (outside
+   wf_master), a .multiple scope; every hypothesis of C07_defaults_text_first / _parsed computed; the defaults
+   hold 5 objects of which the text shows 4; both runs give 7 objects, equal up to word lines and NOT equal; a
+   source with a definition where a scope is expected fails identically in both runs *)
+Example C07_defaults_text_example :
+  (forall k c c', optwe c c' -> ex_canon k c = ex_canon k c') /\
+  parse [] dtx_master_text = Ok dtx_master /\ no_deprecated_or_include dtx_master = true /\
+  D07 ex_env ex_canon dtx_master /\ ~ wf_master dtx_master /\ nohids dtx_master = true /\
+  forallb merged_plain dtx_master = true /\ forallb choice_alts_ok dtx_master = true /\
+  srcs_have_dollar [dtx_src] = false /\
+  fetch ex_env ex_canon false dtx_master [] = Ok dtx_defaults /\
+  forallb (dtree_ok []) (shown dtx_defaults) = true /\
+  List.length dtx_defaults = 5 /\ List.length (shown dtx_defaults) = 4 /\ List.length (gview (s_ "d") dtx_defaults) = 2 /\
+  as_str dtx_defaults [] None 0 None = Ok dtx_text /\ parse [] dtx_text = Ok dtx_parsed /\
+  fetch ex_env ex_canon false dtx_master [dtx_src] = Ok dtx_result /\
+  fetch ex_env ex_canon false dtx_master [dtx_parsed; dtx_src] = Ok dtx_result2 /\
+  List.length dtx_result = 7 /\ map we dtx_result2 = map we dtx_result /\ dtx_result2 <> dtx_result /\
+  fetch ex_env ex_canon false dtx_master [dtx_parsed; dtx_bad] = UErr k_incompat_sd [] 0 /\
+  fetch ex_env ex_canon false dtx_master [dtx_bad] = UErr k_incompat_sd [] 0.
+Proof. exact defaults_text_example. Qed.
+
+(* an error carrying a source line (parsed master of C07_fetch_domain_example with its choice e = *u v; the source
+   sets e = zzz on its line 3): the same error, word and line with the re-parsed defaults in front *)
+Example C07_defaults_text_error_example :
+  D07 ex_env ex_canon exd_master /\ nohids exd_master = true /\ srcs_have_dollar [dte_bad] = false /\
+  fetch ex_env ex_canon false exd_master [] = Ok dte_defaults /\
+  forallb (dtree_ok []) (shown dte_defaults) = true /\
+  as_str dte_defaults [] None 0 None = Ok dte_text /\ parse [] dte_text = Ok dte_parsed /\
+  fetch ex_env ex_canon false exd_master [dte_parsed; dte_bad] = UErr (s_ "NotAChoice") (s_ "zzz") 3 /\
+  fetch ex_env ex_canon false exd_master [dte_bad] = UErr (s_ "NotAChoice") (s_ "zzz") 3.
+Proof. exact defaults_text_error_example. Qed.
